@@ -165,7 +165,7 @@ func TestC09Collide(t *testing.T) {
 		frag := func(name string, allowEmpty bool) string {
 			// includes bytes an encoder of the group key might use as separator,
 			// terminator, length prefix or escape
-			pool := []string{"a", "b", "ab", "1", "c", "A", "\x00", "\x00b", "a\x00", ":", "1:", "2:a", "|", ",", "\\", "\xff", "\x01", " ", "0", "s", "as", "sb", "n", "s1:", "z"}
+			pool := []string{"a", "b", "ab", "1", "c", "A", "\x00", "\x00b", "a\x00", ":", "1:", "2:a", "|", ",", "\\", "\xff", "\x01", " ", "0", "s", "as", "sb", "n", "s1:", "z", "\x00s", "\x00s\x00s"}
 			if allowEmpty {
 				pool = append(pool, "")
 			}
